@@ -797,6 +797,17 @@ class PArpeggiator(PStochasticPattern):
         self.pos = 0
         self.restart()
 
+    def seed(self, seed: int = None):
+        """
+        Seed the pattern's random number generator.
+        The order of a RANDOM arpeggio is drawn from the generator, so it is re-drawn here:
+        seeding takes effect at once, as for every other stochastic pattern, not only
+        from the next reset().
+        """
+        super().seed(seed)
+        self.restart()
+        return self
+
     def __next__(self):
         if len(self._notes) == 0:
             self.pos = 0
